@@ -410,6 +410,7 @@ pub fn run(o: &Opts, stats: &mut Stats) -> Option<usize> {
         if !o.mine(i) {
             continue;
         }
+        set_now_cfg(serde_json::to_string(c).unwrap());
         stats.configs += 1;
         stats.executions += 1;
         match run_cfg(c) {
